@@ -90,7 +90,7 @@ parts = [
        ("R8", "self.held_count.fetch_add(1, Ordering::AcqRel);", "self.held_count.verif_fetch_add(1);", 1),
      ],
      ensures=[
-       ("C11:C01:C02:the_batch_is_parked_at_the_back_of_its_own_pipes_queue_and_every_other_queue_is_untouched",
+       ("C11+C01+C02:the_batch_is_parked_at_the_back_of_its_own_pipes_queue_and_every_other_queue_is_untouched",
         "final(self).held_ingress@ == old(self).held_ingress@.insert(pipe_read_id, queue_of(old(self).held_ingress@, pipe_read_id).push(batch@))"),
        ("C11:the_counter_counts_exactly_the_parked_batch", "final(self).held_count.v@ == old(self).held_count.v@ + 1"),
        ("C11:parking_a_batch_finalizes_nothing", "final(self).pipe_finalized == old(self).pipe_finalized && final(self).woken_under == old(self).woken_under"),
@@ -101,7 +101,7 @@ parts = [
      ],
      ensures=[
        ("C11:the_finalized_set_grows_by_exactly_this_pipe", "final(self).pipe_finalized@ == old(self).pipe_finalized@.insert(pipe_read_id)"),
-       ("C11:C01:finalizing_touches_no_parked_batch", "final(self).held_ingress == old(self).held_ingress && final(self).held_count == old(self).held_count"),
+       ("C11+C01:finalizing_touches_no_parked_batch", "final(self).held_ingress == old(self).held_ingress && final(self).held_count == old(self).held_count"),
        ("C11:waiters_are_woken_after_the_pipe_is_in_the_set",
         "final(self).woken_under@.len() == old(self).woken_under@.len() + 1 && final(self).woken_under@.last().contains(pipe_read_id) "
         "&& final(self).woken_under@.drop_last() =~= old(self).woken_under@"),
